@@ -13,7 +13,7 @@ from .rtcommon import HOWS, RT_ASSUMPTIONS, make_replay
 
 NAMES = ["ExecOnce", "ExecArgsExact", "ExecOutcomeIdentity", "ExecRightFlavour", "ExecNotAFailureObserved", "ExecReturnsObserved", "AtMostOnce"]
 replay = make_replay(NAMES)
-EXEC_HOWS = ["none", "val:awaitable", "val:0", "val:0.0", "val:False", "val:''", "val:[]", "val:()", "val:x", "val:obj", "exc:LookupError", "exc:UserExc", "exc:UserExcSub", "exc:RuntimeError", "exc:ValueError"]
+EXEC_HOWS = ["none", "val:awaitable", "val:0", "val:0.0", "val:False", "val:''", "val:[]", "val:()", "val:x", "val:obj", "exc:LookupError", "exc:UserExc", "exc:UserExcSub", "exc:RuntimeError", "exc:ValueError", "exc:TimeoutError"]
 
 
 def shapes(thorough, rnd):
@@ -79,6 +79,22 @@ def run(ctx):
             script += [{"op": "execute", "p": "xn", "ctx": cx, "how": EXEC_HOWS[(k * 5) % len(EXEC_HOWS)]}, {"op": "execute", "p": "xu", "ctx": cx, "how": EXEC_HOWS[(k * 3 + 1) % len(EXEC_HOWS)]}]
             script += [{"op": "step", "p": b} for b in base["pre_all"]] + [{"op": "polls", "n": 2}]
             extra.append({"seed": ctx.seed + k, "jitter": 0.0, "payloads": dict(base["payloads"], **base["nested"]), "script": script, "shape": "targeted-nested-and-unhashable-executes"})
+    # every Exception subclass an executed payload may raise reaches the caller as it is - also
+    # the ones the framework's own waiting could be confused by (TimeoutError)
+    for base in sh:
+        xf = base["payloads"]["x1p"]["flavour"]
+        pre = [{"op": "adopt", "p": b, "ctx": "driver"} for b in base["pre_all"]]
+        script = pre + [{"op": "accept"}, {"op": "wait_running"}] + [{"op": "wait_start", "p": b} for b in base["pre_all"]]
+        script += [{"op": "execute", "p": "x1p", "ctx": base["exec_ctx"][0], "how": "exc:TimeoutError"}, {"op": "execute", "p": "x2p", "ctx": base["exec_ctx"][-1], "how": "exc:TimeoutError"}]
+        script += [{"op": "step", "p": b} for b in base["pre_all"]] + [{"op": "polls", "n": 2}]
+        extra.append({"seed": ctx.seed, "jitter": 0.0, "payloads": base["payloads"], "script": script, "shape": "targeted-execute-raises-timeouterror-" + xf})
+    # execute() from a thread payload while the runtime is closing (the service loop has already
+    # left, the runners are still up): the outcome is handed over all the same
+    for f in ("asyncio", "trio"):
+        for ms in (5, 40):
+            extra.append({"seed": ctx.seed, "jitter": 0.0, "payloads": {"c1": {"flavour": f, "cleanup": 2, "shielded": 2 if f == "trio" else 0}, "c2": {"flavour": f, "cleanup": 1}, "h1": {"flavour": "threading"}, "x1p": {"flavour": f, "args": [1], "kwargs": {"k": 2}}},
+                          "script": [{"op": "adopt", "p": "c1"}, {"op": "adopt", "p": "c2"}, {"op": "adopt", "p": "h1"}, {"op": "accept"}, {"op": "wait_running"}, {"op": "wait_start", "p": "c1"}, {"op": "wait_start", "p": "c2"}, {"op": "wait_start", "p": "h1"},
+                                     {"op": "shutdown", "ctx": "thread", "wait": False}, {"op": "sleep", "ms": ms}, {"op": "execute", "p": "x1p", "ctx": "payload:h1", "how": "val:x"}, {"op": "wait_end"}], "shape": "targeted-execute-while-closing"})
     scen.run_family(ctx, sh, names=NAMES, allow=(), extra_scenarios=extra, mc_invariants=["AtMostOnce", "FailStopSafe"], mc_properties=["ExecLive"], per_shape=12 if thorough else 5, depth=40, label="c10", script_hook=fix_script)
     ctx.extra["rule"] = "shapes = executed flavour x calling context (outside thread, thread payload, coroutine payload of another flavour); per behaviour 2..3 execute calls with outcomes drawn from None / falsy and truthy values / Exception subclasses and with positional and keyword arguments, interleaved with steps of adopted bystanders of all flavours"
     ctx.assumptions = RT_ASSUMPTIONS + ["no two blocking executes wait on each other's loop thread (execute is documented as blocking; DESIGN 7.5)", "identity of the outcome is checked with `is` inside the harness and logged as a boolean"]
